@@ -37,6 +37,94 @@ def _worker(args):
         return {'__harness_error__': f'{type(e).__name__}: {e}', 'tb': traceback.format_exc()[-1500:]}
 
 
+# ---- line coverage of the modelled functions (the functions named in translator FINGERPRINTS) during the runs of the
+# ---- implementation: evidence only, never part of a verdict
+_COV = {'files': None, 'seen': set(), 'sent': set(), 'on': False}
+
+
+def modelled_lines(P):
+    """{label: (absolute file, sorted executable body lines)} of the functions fingerprinted for this property"""
+    import ast
+    import translator
+    try:
+        mod = importlib.import_module(f'translator.facts_{P.ID}')
+    except Exception:
+        return {}
+    res = {}
+    codes = {}
+    for label, getter in getattr(mod, 'FINGERPRINTS', {}).items():
+        try:
+            node = getter()
+        except Exception:
+            continue
+        if not isinstance(node, (ast.FunctionDef, ast.AsyncFunctionDef)):
+            continue
+        path = None
+        for pth, tree in list(translator._cache.items()):
+            if any(n is node for n in ast.walk(tree)):
+                path = pth
+                break
+        if path is None:
+            continue
+        if path not in codes:
+            try:
+                with open(path, encoding='utf-8') as f:
+                    codes[path] = compile(f.read(), path, 'exec')
+            except Exception:
+                continue
+        first, last = node.lineno, node.end_lineno
+        skip = set(range(min([d.lineno for d in node.decorator_list] + [first]), first + 1))
+        b0 = node.body[0]
+        if isinstance(b0, ast.Expr) and isinstance(b0.value, ast.Constant) and isinstance(b0.value.value, str):
+            skip |= set(range(b0.lineno, b0.end_lineno + 1))
+        lines = set()
+        stack = [codes[path]]
+        while stack:
+            co = stack.pop()
+            stack.extend(c for c in co.co_consts if hasattr(c, 'co_lines'))
+            if co.co_name == '<module>':
+                continue
+            for _, _, ln in co.co_lines():
+                if ln is not None and first <= ln <= last and first <= co.co_firstlineno <= last:
+                    lines.add(ln)
+        res[label] = (path, sorted(lines - skip))
+    return res
+
+
+def _cov_start(files):
+    if _COV['on'] or not files:
+        return
+    mon = getattr(sys, 'monitoring', None)
+    if mon is None:
+        return
+    _COV['files'] = set(files)
+    try:
+        mon.use_tool_id(3, 'verif-modelled-lines')
+    except ValueError:
+        return
+    seen, fs = _COV['seen'], _COV['files']
+
+    def on_line(code, line):
+        if code.co_filename in fs:
+            seen.add((code.co_filename, line))
+        return mon.DISABLE
+    mon.register_callback(3, mon.events.LINE, on_line)
+    mon.set_events(3, mon.events.LINE)
+    _COV['on'] = True
+
+
+def _worker_cov(args):
+    modname, case, files = args
+    try:
+        _cov_start(files)
+    except Exception:
+        pass
+    o = _worker((modname, case))
+    new = _COV['seen'] - _COV['sent']
+    _COV['sent'] |= new
+    return o, sorted(new)
+
+
 def _limit_worker():
     try:
         import resource
@@ -46,18 +134,29 @@ def _limit_worker():
         pass
 
 
-def run_impl(P, cases):
+def run_impl(P, cases, cov=None):
     """run the implementation on all cases (forked workers; frappy is imported inside them)"""
     if not cases:
         return []
     jobs = coqrun.default_jobs()
+    files = []
+    if cov is not None and os.environ.get('VERIF_COV', '1') != '0':
+        files = sorted({v[0] for v in cov['lines'].values()})
     if getattr(P, 'SERIAL', False) or len(cases) < 8 or jobs == 1:
-        return [_worker((P.__name__, c)) for c in cases]
+        res = [_worker_cov((P.__name__, c, files)) for c in cases]
+        if cov is not None:
+            for _, new in res:
+                cov['seen'].update(map(tuple, new))
+        return [o for o, _ in res]
     ctx = mp.get_context('fork')
     # workers are recycled after a few chunks and capped in address space, so that a leak in a property's driver
     # cannot exhaust the machine (checks of several properties may run at the same time)
     with ctx.Pool(min(jobs, 16), initializer=_limit_worker, maxtasksperchild=2) as pool:
-        return pool.map(_worker, [(P.__name__, c) for c in cases], chunksize=max(1, len(cases) // (jobs * 8)))
+        res = pool.map(_worker_cov, [(P.__name__, c, files) for c in cases], chunksize=max(1, len(cases) // (jobs * 8)))
+    if cov is not None:
+        for _, new in res:
+            cov['seen'].update(map(tuple, new))
+    return [o for o, _ in res]
 
 
 def case_hash(obj):
@@ -263,7 +362,11 @@ def check(P, tier, seed):
             cases.extend(P.gen_cases(seed + 1000 * k, 'quick'))
     else:
         cases.extend(P.gen_cases(seed, eff_tier))
-    obs = run_impl(P, cases)
+    try:
+        cov = {'lines': modelled_lines(P), 'seen': set()}
+    except Exception:
+        cov = None
+    obs = run_impl(P, cases, cov)
 
     violations = []      # (case, obs, failure)
     known_hits = {}
@@ -409,6 +512,17 @@ def check(P, tier, seed):
         'wall_s': round(time.time() - t0, 2),
         'violations': len(violations) + (1 if (broken and not violations) else 0),
     }
+    if cov and cov['lines']:
+        # which lines of the modelled (fingerprinted) functions the implementation runs of this check executed
+        per = {}
+        tot = hit = 0
+        for label, (path, lines) in sorted(cov['lines'].items()):
+            got = [ln for ln in lines if (path, ln) in cov['seen']]
+            tot += len(lines)
+            hit += len(got)
+            per[label] = {'file': os.path.relpath(path, os.environ.get('VERIF_REPO', '/repo')), 'lines': len(lines),
+                          'executed': len(got), 'not_executed': [ln for ln in lines if (path, ln) not in cov['seen']][:40]}
+        ev['coverage']['modelled_function_lines'] = {'total': tot, 'executed': hit, 'per_function': per}
     if hasattr(P, 'extra_evidence'):
         ev['coverage'].update(P.extra_evidence(cases, obs))
     # development runs against a scratch copy (VERIF_REPO) must not overwrite the evidence of /repo
